@@ -470,3 +470,71 @@ Section Proofs.
         destruct (fst (chunked_seq k' l')); try contradiction. exact Logic.I.
   Qed.
 End Proofs.
+
+(* ------------------------------------------------------------------ headline forms used by P_C16 *)
+Lemma slots_independent_lemma : forall P (ch : list (source P)) order order',
+  covers (List.length ch) order -> covers (List.length ch) order' ->
+  run_goroutines P ch order = run_goroutines P ch order'
+  /\ run_goroutines P ch order = map (fun s => Some (s_res s)) ch.
+Proof.
+  intros P ch o o' C C'. split.
+  - rewrite (slots_after_barrier P ch o C), (slots_after_barrier P ch o' C'). reflexivity.
+  - exact (slots_after_barrier P ch o C).
+Qed.
+
+Lemma concurrent_grab_det_lemma : forall P combine (ch : list (source P)) order order',
+  covers (List.length ch) order -> covers (List.length ch) order' ->
+  concurrent_grab P combine ch order = concurrent_grab P combine ch order'
+  /\ fst (concurrent_grab P combine ch order) <> CPanic.
+Proof.
+  intros P combine ch o o' C C'. rewrite (concurrent_grab_seq P combine ch o C), (concurrent_grab_seq P combine ch o' C').
+  split; [reflexivity|]. unfold seq_grab, finish_chunk. simpl.
+  destruct (successes ch); [discriminate|]. destruct (combine (p :: l)); discriminate.
+Qed.
+
+Section Headlines.
+  Variable P : Type.
+  Variable combine : list P -> option P.
+  Variable eqv : P -> P -> Prop.
+  Hypothesis eqv_refl : forall a, eqv a a.
+  Hypothesis eqv_sym : forall a b, eqv a b -> eqv b a.
+  Hypothesis eqv_trans : forall a b c, eqv a b -> eqv b c -> eqv a c.
+  Hypothesis combine_pair_proper : forall a a' b, eqv a a' -> opt_eqv P eqv (combine [a; b]) (combine [a'; b]).
+  Hypothesis combine_flat : forall A B, A <> [] -> B <> [] ->
+    opt_eqv P eqv (match combine A, combine B with Some a, Some b => combine [a; b] | _, _ => None end) (combine (A ++ B)).
+
+  Lemma chunked_equals_flat_lemma : forall k (l : list (source P)) sched,
+    1 <= k -> covers (List.length l) sched ->
+    cres_eqv P eqv (fst (chunked_grab P combine k l sched)) (flat_grab P combine l).
+  Proof.
+    intros k l sched K C. rewrite (chunked_grab_seq P combine k l sched K C).
+    exact (chunked_seq_flat P combine eqv eqv_refl eqv_trans combine_pair_proper combine_flat k l K).
+  Qed.
+
+  Lemma errors_lemma : forall k (l : list (source P)) sched,
+    1 <= k -> covers (List.length l) sched ->
+    fst (chunked_grab P combine k l sched) = CErr \/
+    snd (chunked_grab P combine k l sched) = failure_lines l.
+  Proof.
+    intros k l sched K C. rewrite (chunked_grab_seq P combine k l sched K C).
+    exact (chunked_seq_lines P combine k l K).
+  Qed.
+
+  Lemma other_failures_lemma : forall k k' (l l' : list (source P)) sched sched',
+    1 <= k -> 1 <= k' -> covers (List.length l) sched -> covers (List.length l') sched' ->
+    successes l = successes l' ->
+    opt_eqv P eqv (prof_of P (fst (chunked_grab P combine k l sched))) (prof_of P (fst (chunked_grab P combine k' l' sched'))).
+  Proof.
+    intros k k' l l' s s' K K' C C' S.
+    rewrite (chunked_grab_seq P combine k l s K C), (chunked_grab_seq P combine k' l' s' K' C').
+    exact (chunked_profile_depends_on_successes_only P combine eqv eqv_refl eqv_sym eqv_trans combine_pair_proper combine_flat k k' l l' K K' S).
+  Qed.
+End Headlines.
+
+(* [seq 0 n] is a completion order; so is its reverse, and any list containing it *)
+Lemma covers_seq n : covers n (seq 0 n).
+Proof. intros j H. apply in_seq. lia. Qed.
+Lemma covers_rev n o : covers n o -> covers n (rev o).
+Proof. intros C j H. apply in_rev. rewrite rev_involutive. apply C. exact H. Qed.
+Lemma covers_app n o o' : covers n o -> covers n (o' ++ o).
+Proof. intros C j H. apply in_or_app. right. apply C. exact H. Qed.
